@@ -1233,6 +1233,23 @@ int32_t jls_core_ts_seek(struct jls_core_s * self, uint16_t signal_id, uint8_t l
         }
 
         struct jls_index_s * r = (struct jls_index_s *) self->buf->start;
+        while ((lvl == (JLS_SUMMARY_LEVEL_COUNT - 1)) && self->chunk_cur.hdr.item_next) {
+            // The highest level has no index above it, so its list may hold several chunks:
+            // move on while the next chunk starts before the requested timestamp.
+            int64_t offset_next = (int64_t) self->chunk_cur.hdr.item_next;
+            ROE(jls_raw_chunk_seek(self->raw, offset_next));
+            ROE(jls_core_rd_chunk(self));
+            r = (struct jls_index_s *) self->buf->start;
+            if ((self->buf->length >= (sizeof(r->header) + sizeof(r->entries[0])))
+                    && r->header.entry_count && (r->entries[0].timestamp < timestamp)) {
+                offset = offset_next;
+            } else {
+                ROE(jls_raw_chunk_seek(self->raw, offset));
+                ROE(jls_core_rd_chunk(self));
+                r = (struct jls_index_s *) self->buf->start;
+                break;
+            }
+        }
         uint8_t * p_end = (uint8_t *) &r->entries[r->header.entry_count];
 
         if ((size_t) (p_end - self->buf->start) > self->buf->length) {
